@@ -270,7 +270,7 @@ func check(id, tier string) int {
 			defer wg.Done()
 			logPath := filepath.Join(scratchRoot, fmt.Sprintf("w%02d.jsonl", i))
 			args := []string{"-prop", id, "-tier", tier, "-seed", strconv.FormatUint(seed, 10), "-worker", strconv.Itoa(i), "-nworkers", strconv.Itoa(nw),
-				"-budget", fmt.Sprint(budget), "-log", logPath, "-replaydir", replayDir, "-known", strings.Join(knownSigs, ","), "-minbudget", fmt.Sprint(minBudget), "-regress", filepath.Join(verifDir(), "regress")}
+				"-budget", fmt.Sprint(budget), "-log", logPath, "-replaydir", replayDir, "-known", strings.Join(knownSigs, ","), "-minbudget", fmt.Sprint(minBudget), "-regress", filepath.Join(verifDir(), "regress"), "-racelog", filepath.Join(scratchRoot, fmt.Sprintf("race%02d", i))}
 			env := []string{"GORACE=halt_on_error=0 log_path=" + filepath.Join(scratchRoot, fmt.Sprintf("race%02d", i)), "GOMAXPROCS=2"}
 			results[i] = runWorker(bin, i, args, logPath, env, time.Duration((budget+minBudget*3+120)*float64(time.Second)))
 		}(i)
@@ -283,8 +283,9 @@ func check(id, tier string) int {
 	var lines []string
 	seenSig := map[string]bool{}
 	confirm := func(path string) (int, string) {
-		cmd := exec.Command(bin, "-replay", path)
-		cmd.Env = append(os.Environ(), "GORACE=halt_on_error=0 log_path="+filepath.Join(scratchRoot, "race-replay"), "GOMAXPROCS=2")
+		rl := filepath.Join(scratchRoot, fmt.Sprintf("race-replay-%d", time.Now().UnixNano()))
+		cmd := exec.Command(bin, "-replay", path, "-racelog", rl)
+		cmd.Env = append(os.Environ(), "GORACE=halt_on_error=0 log_path="+rl, "GOMAXPROCS=2")
 		var ob, eb bytes.Buffer
 		cmd.Stdout, cmd.Stderr = &ob, &eb
 		err := cmd.Run()
@@ -308,6 +309,7 @@ func check(id, tier string) int {
 				}
 			case "violation":
 				if seenSig[sig] {
+					os.Remove(path) // same finding as one already reported: keep one replay file per signature
 					continue
 				}
 				seenSig[sig] = true
@@ -412,8 +414,9 @@ func replayCmd(path string) int {
 	if err != nil {
 		return die2("%v", err)
 	}
-	cmd := exec.Command(bin, "-replay", path)
-	cmd.Env = append(os.Environ(), "GORACE=halt_on_error=0", "GOMAXPROCS=2")
+	rl := filepath.Join(scratchRoot, "race-replay")
+	cmd := exec.Command(bin, "-replay", path, "-racelog", rl)
+	cmd.Env = append(os.Environ(), "GORACE=halt_on_error=0 log_path="+rl, "GOMAXPROCS=2")
 	var ob, eb bytes.Buffer
 	cmd.Stdout, cmd.Stderr = &ob, &eb
 	err = cmd.Run()
@@ -570,34 +573,34 @@ func writeEvidence(id, tier string, seed uint64, info propInfo, results []*worke
 	}
 	na := "n/a: the library has no network, clock, disk, allocation-failure or syscall surface (DESIGN.md section 1)"
 	cov := map[string]any{
-		"evaluations":                    int(runs),
-		"distinct_nontrivial":            len(nt),
-		"rule":                           info.rule,
-		"samples":                        samples,
-		"simulated_runs_per_hour":        perHour(runs),
-		"seeds_per_hour":                 perHour(runs),
-		"simulated_time_steps":           int64(steps),
-		"simulated_time_unit":            "one yield site passed (every function entry, loop iteration and branch of the instrumented library)",
-		"operations_executed":            int64(ops),
-		"context_switches":               int64(switches),
-		"distinct_interleavings":         len(scheds),
-		"interleaving_measure":           "hash of the sequence of (task, yield index) context switches of a run; for the sequential history worlds the interleaving of client scripts is the history itself and is counted by the plan hash",
-		"distinct_abstract_states":       len(states),
-		"state_measure":                  "hash of the reference model's observable state, sampled every 8th step (at most 64 per run)",
-		"faults_fired":                   faults,
-		"fault_kinds_not_applicable":     map[string]string{"network loss/dup/reorder/partition": na, "clock skew/jump": na, "disk error/full disk": na, "allocation/syscall failure": na},
-		"unjudged":                       unj,
-		"probes":                         probes,
-		"kinds_explored":                 kinds,
-		"interleaving_strategies":        strats,
-		"max_container_size":             int(maxSize),
-		"sites":                          map[string]any{"hit": hitT, "total": totT, "per_anchor_file": reachOut},
-		"workers":                        nw,
-		"search_wall_s":                  searchWall,
-		"build_s":                        buildS,
-		"budget_s":                       budget,
-		"yield_sites_total":              len(instr.Sites),
-		"map_range_sites_owned":          len(instr.MapSites),
+		"evaluations":                int(runs),
+		"distinct_nontrivial":        len(nt),
+		"rule":                       info.rule,
+		"samples":                    samples,
+		"simulated_runs_per_hour":    perHour(runs),
+		"seeds_per_hour":             perHour(runs),
+		"simulated_time_steps":       int64(steps),
+		"simulated_time_unit":        "one yield site passed (every function entry, loop iteration and branch of the instrumented library)",
+		"operations_executed":        int64(ops),
+		"context_switches":           int64(switches),
+		"distinct_interleavings":     len(scheds),
+		"interleaving_measure":       "hash of the sequence of (task, yield index) context switches of a run; for the sequential history worlds the interleaving of client scripts is the history itself and is counted by the plan hash",
+		"distinct_abstract_states":   len(states),
+		"state_measure":              "hash of the reference model's observable state, sampled every 8th step (at most 64 per run)",
+		"faults_fired":               faults,
+		"fault_kinds_not_applicable": map[string]string{"network loss/dup/reorder/partition": na, "clock skew/jump": na, "disk error/full disk": na, "allocation/syscall failure": na},
+		"unjudged":                   unj,
+		"probes":                     probes,
+		"kinds_explored":             kinds,
+		"interleaving_strategies":    strats,
+		"max_container_size":         int(maxSize),
+		"sites":                      map[string]any{"hit": hitT, "total": totT, "per_anchor_file": reachOut},
+		"workers":                    nw,
+		"search_wall_s":              searchWall,
+		"build_s":                    buildS,
+		"budget_s":                   budget,
+		"yield_sites_total":          len(instr.Sites),
+		"map_range_sites_owned":      len(instr.MapSites),
 		"components": map[string]any{
 			"real": []string{"every package of the repository's working tree (go/ast-instrumented scratch copy: yield sites + map-order seam, semantics unchanged)", "encoding/json", "Go runtime", "race detector (C18 only)"},
 			"stub": []string{"client scripts", "snapshot store (bytes between ToJSON and FromJSON)", "caller-side RWMutex schedule (C18)", "reference models"},
